@@ -96,6 +96,11 @@ TEXT = {
   level_text="Generated hostile inputs (malformed SOCKS headers inside authenticated plaintext, hostile chunk framing, raw bytes, replies of every size from every local source class, generated termination orders and listener shutdowns) are driven through the real TCP and UDP services; the process must survive (cases are journalled first), no panic may be recovered, well-formed traffic must still be served, serving must stop only after all handlers returned, and goroutines and sockets must return to the baseline.",
   level_note="Only local destinations are generated; 'gone' means within 4 s; coverage-guided fuzzing runs only in the thorough tier.",
  ),
+ "C19": dict(
+  technique="property-based generation of concurrent workloads executed under the Go race detector, each with a sequential-consistency oracle",
+  level_text="Generated concurrent workloads for every shared component (key list, replay history, association table, shared listeners, collectors, the TCP service end to end) run in a -race build; any race report is a violation whose signature is the pair of racing sites, and each workload also checks a result that must equal some sequential order (always-present key never fails, exactly one winner per duplicated handshake, exactly-once delivery, nothing lost).",
+  level_note="Dynamic race detection: only interleavings that occur are seen. The thorough tier runs hundreds to thousands of workloads.",
+ ),
 }
 def _na():
     from checks_table import CHECKS
